@@ -49,7 +49,7 @@ CALLER   == 0 - 1
 RECOVERY == 0 - 2
 
 ResetTo(p) ==
-  /\ cpc' = "new" /\ nsub' = 0 /\ cur' = 0 /\ recAttached' = FALSE
+  /\ cpc' = "new" /\ nsub' = 0 /\ cur' = 0 /\ recAttached' = FALSE /\ nsd' = [g \in Gens |-> 0]
   /\ q' = [g \in Gens |-> <<>>] /\ txAlive' = [g \in Gens |-> FALSE]
   /\ rxLock' = [g \in Gens |-> NOBODY] /\ poisoned' = [g \in Gens |-> FALSE]
   /\ wpc' = [g \in Gens |-> [w \in Workers |-> "absent"]]
@@ -115,7 +115,9 @@ Ev_Harness ==
   \* Humphrey's own monitor stream, read by the driver after a run without restart: b = number of
   \* ThreadRestarted events naming worker a.  Must equal the number of respawns of that id in the model.
   \/ Is("Mon_Restarted") /\ IsW(E.a) /\ cur = 1 /\ inc[1][E.a] = E.b /\ Same /\ Adv
-  \/ Is("Quiesced") /\ RunOver /\ sending = {} /\ Same /\ Adv
+  \* a = number of tasks whose body was entered exactly once and returned exactly once (never, if it panics),
+  \* counted by the bodies themselves; b = worker threads (by name) still in /proc
+  \/ Is("Quiesced") /\ RunOver /\ sending = {} /\ E.a = nsub /\ E.b = 0 /\ Same /\ Adv
   \* a = 1: drop() has not returned after the escalating waits.  Explicable only where the model's
   \* caller is blocked for ever, i.e. under DropJoinsRecovery.
   \/ Is("C_Hang") /\ E.a = 1 /\ cpc = "dropping" /\ ~DropPassesRecovery /\ Same /\ Adv
